@@ -287,7 +287,11 @@ func (s *verifC30Peer) kex(first bool, otherInitPacket []byte) error {
 		goOffers := (s.isClient && slices.Contains(serverInit.KexAlgos, kexStrictServer)) || (!s.isClient && slices.Contains(clientInit.KexAlgos, kexStrictClient))
 		if goOffers {
 			s.strict = true
-			s.tr.strictMode = true // the scripted peer follows the protocol itself; it does not police the Go side
+			// the scripted peer follows the protocol itself (its reader has seen exactly the Go
+			// side's KEXINIT at this point, so the sequence-number precondition holds)
+			if err := s.tr.setStrictMode(); err != nil {
+				return err
+			}
 		}
 	}
 	if first && !s.isClient && slices.Contains(clientInit.KexAlgos, "ext-info-c") {
@@ -331,7 +335,7 @@ func (s *verifC30Peer) kex(first bool, otherInitPacket []byte) error {
 		return fmt.Errorf("peer: expected NEWKEYS, got %d", pkt[0])
 	}
 	if first {
-		s.tr.initialKEXDone = true
+		s.tr.setInitialKEXDone()
 	}
 	return nil
 }
